@@ -193,24 +193,24 @@ Ltac splits := repeat match goal with |- ?G => let G' := eval hnf in G in match 
 Section Inv.
 Variable c : cfg.
 Hypothesis Hwf : wf_cfg c.
-(* [lv = true]: the invariant also says that a stored not-yet-committed block will pass validation *)
-Variable lv : bool.
 
 Definition live (s : cstate) (b : blk) : Prop :=
   validate s (b_sh (final_block c b)) (b_data (final_block c b)) = true.
 
 Definition pend_ok (m : img) (built : list (N * list tx * Z)) (s : cstate) (n : N) (b : blk) : Prop :=
   h_last (hdr_of b) = link c (g_block m) n /\ sh_signer (b_sh b) = mk_signer c /\
-  In (n, d_txs (b_data b), h_time (hdr_of b)) built /\ (lv = true -> live s b).
+  In (n, d_txs (b_data b), h_time (hdr_of b)) built /\ live s b.
 
-(* the durable part *)
+(* the durable part: holds at every instant, also of the image a dead process leaves behind.  The chain is
+   valid up to the height n of the RECORDED STATE; the store height is n, or n-1 after a crash between the
+   state write and the height write (start-up raises it) *)
 Definition DInv (m : img) (inits : list root) built execs : Prop :=
-  let H := g_height m in
   match g_state m with
-  | Some s => (exists r0, In r0 inits /\ chain c (g_block m) built execs r0 H s) /\ c_initial c <= H /\
-              (forall b, g_block m (H + 1) = Some b -> pend_ok m built s (H + 1) b) /\
-              (forall k, H + 1 < k -> g_block m k = None)
-  | None => H <= c_initial c - 1 /\ (forall k, c_initial c < k -> g_block m k = None)
+  | Some s => (exists r0, In r0 inits /\ chain c (g_block m) built execs r0 (s_height s) s) /\ c_initial c <= s_height s /\
+              s_height s <= g_height m + 1 /\ g_height m <= s_height s /\
+              (forall b, g_block m (s_height s + 1) = Some b -> pend_ok m built s (s_height s + 1) b) /\
+              (forall k, s_height s + 1 < k -> g_block m k = None)
+  | None => g_height m <= c_initial c - 1 /\ (forall k, c_initial c < k -> g_block m k = None)
   end.
 
 (* what holds while a process runs with last state [s] *)
@@ -229,15 +229,16 @@ Definition Inv (st : mach) : Prop :=
 Lemma wf_initial : 1 <= c_initial c. Proof. exact (proj1 Hwf). Qed.
 Lemma wf_gaddr : c_gaddr c = Addr (c_key c). Proof. exact (proj2 Hwf). Qed.
 
-Lemma rf_dinv m inits built execs s : RF m inits built execs s -> DInv m inits built execs.
-Proof.
-  intros (Hch & Hp & Ha & [[Hs Hle]|(Hs & HH & _)]); unfold DInv; rewrite Hs.
-  - splits; assumption.
-  - pose proof wf_initial. split; [lia|]. intros k Hk. apply Ha. lia.
-Qed.
-
 Lemma rf_height m inits built execs s : RF m inits built execs s -> s_height s = g_height m /\ c_initial c - 1 <= g_height m.
 Proof. intros ((r0 & _ & Hc) & _). apply chain_height in Hc. split; apply Hc. Qed.
+
+Lemma rf_dinv m inits built execs s : RF m inits built execs s -> DInv m inits built execs.
+Proof.
+  intros Hrf. pose proof (rf_height _ _ _ _ _ Hrf) as (Hsh & _).
+  destruct Hrf as (Hch & Hp & Ha & [[Hs Hle]|(Hs & HH & _)]); unfold DInv; rewrite Hs.
+  - rewrite Hsh. splits; try assumption; lia.
+  - pose proof wf_initial. split; [lia|]. intros k Hk. apply Ha. lia.
+Qed.
 
 Lemma pend_mono m built built' s n b : incl built built' -> pend_ok m built s n b -> pend_ok m built' s n b.
 Proof. intros Hi (A & B & C & D). splits; try assumption. apply Hi, C. Qed.
@@ -265,9 +266,22 @@ Lemma dinv_mono m inits inits' built built' execs execs' :
   DInv m inits built execs -> DInv m inits' built' execs'.
 Proof.
   intros Hi Hb He. unfold DInv. destruct (g_state m) as [s|]; [|tauto].
-  intros ((r0 & Hr & Hc) & Hle & Hp & Ha). splits; try assumption.
+  intros ((r0 & Hr & Hc) & Hle & Hb1 & Hb2 & Hp & Ha). splits; try assumption.
   - exists r0. split; [apply Hi, Hr|]. eapply chain_mono; eauto.
   - intros b Hb'. eapply pend_mono; eauto.
+Qed.
+
+(* the durable invariant does not depend on the store height beyond the two bounds *)
+Lemma dinv_transport m m' inits built execs s :
+  g_state m = Some s -> g_state m' = Some s -> (forall k, g_block m' k = g_block m k) ->
+  s_height s <= g_height m' + 1 -> g_height m' <= s_height s ->
+  DInv m inits built execs -> DInv m' inits built execs.
+Proof.
+  intros Hs Hs' Hb B1 B2. unfold DInv. rewrite Hs, Hs'.
+  intros ((r0 & Hr & Hc) & Hle & _ & _ & Hp & Ha). splits; try assumption.
+  - exists r0. split; [exact Hr|]. eapply chain_mono; eauto using incl_refl.
+  - intros b Hb'. rewrite Hb in Hb'. eapply pend_blocks; [|apply Hp, Hb']. apply Hb.
+  - intros k Hk. rewrite Hb. apply Ha, Hk.
 Qed.
 
 (* ---- writes that do not commit ---- *)
@@ -331,33 +345,44 @@ Proof.
   rewrite B. unfold link. destruct (_ <=? _); [reflexivity|]. rewrite He. reflexivity.
 Qed.
 
-(* ---- the commit group ---- *)
+(* ---- the commit group: state, then store height ---- *)
 Lemma rf_commit m inits built execs s b ret :
   RF m inits built execs s ->
   g_block m (g_height m + 1) = Some b ->
   block_valid c (g_block m) built execs s b ret ->
   let s' := next_state s (hdr_of b) ret in
-  let m' := apply_writes m [w_height (g_height m + 1); w_state s'] in
-  RF m' inits built execs s' /\ g_height m' = g_height m + 1 /\
-  (forall k, g_block m' k = g_block m k).
+  let mA := apply_writes m [w_state s'] in
+  let m' := apply_writes m [w_state s'; w_height (g_height m + 1)] in
+  RF m' inits built execs s' /\ g_height m' = g_height m + 1 /\ (forall k, g_block m' k = g_block m k) /\
+  (* the image after the state write alone *)
+  DInv mA inits built execs /\ g_height mA = g_height m /\ (forall k, g_block mA k = g_block m k).
 Proof.
-  intros ((r0 & Hr & Hc) & Hp & Ha & Hs) Hb Hv s' m'.
+  intros ((r0 & Hr & Hc) & Hp & Ha & Hs) Hb Hv s' mA m'.
   pose proof (chain_height _ _ _ _ _ _ _ Hc) as (Hsh & Hge & _).
   pose proof wf_initial as Hi.
+  destruct (aw_state m s') as (A1 & A2 & _ & A4).
+  destruct (aw_height (apply_write m (w_state s')) (g_height m + 1)) as (B1 & B2 & _ & B4).
+  assert (EA : g_height mA = g_height m /\ g_state mA = Some s' /\ forall k, g_block mA k = g_block m k).
+  { unfold mA. rewrite apply_writes_cons, apply_writes_nil. splits; assumption. }
   assert (EH : g_height m' = g_height m + 1 /\ g_state m' = Some s' /\ forall k, g_block m' k = g_block m k).
   { unfold m'. rewrite apply_writes_cons, apply_writes_cons, apply_writes_nil.
-    destruct (aw_height m (g_height m + 1)) as (A1 & A2 & _ & A4).
-    destruct (aw_state (apply_write m (w_height (g_height m + 1))) s') as (B1 & B2 & _ & B4).
     splits; [congruence|congruence|intros k; rewrite B4; apply A4]. }
-  destruct EH as (E1 & E2 & E4).
-  split; [|split; assumption].
-  unfold RF. rewrite E1, E2. splits.
-  - exists r0. split; [exact Hr|].
-    eapply chain_mono with (blocks := g_block m); eauto using incl_refl.
-    constructor; assumption.
-  - intros b' Hb'. rewrite E4 in Hb'. rewrite Ha in Hb' by lia. discriminate.
-  - intros k Hk. rewrite E4. apply Ha. lia.
-  - left. split; [reflexivity|lia].
+  destruct EA as (F1 & F2 & F4). destruct EH as (E1 & E2 & E4).
+  assert (Hrf : RF m' inits built execs s').
+  { unfold RF. rewrite E1, E2. splits.
+    - exists r0. split; [exact Hr|].
+      eapply chain_mono with (blocks := g_block m); eauto using incl_refl.
+      constructor; assumption.
+    - intros b' Hb'. rewrite E4 in Hb'. rewrite Ha in Hb' by lia. discriminate.
+    - intros k Hk. rewrite E4. apply Ha. lia.
+    - left. split; [reflexivity|lia]. }
+  pose proof (rf_height _ _ _ _ _ Hrf) as (Hsh' & _).
+  split; [exact Hrf|]. split; [exact E1|]. split; [exact E4|]. split; [|split; [exact F1|exact F4]].
+  apply (dinv_transport m' mA inits built execs s' E2 F2).
+  - intros k. rewrite F4, E4. reflexivity.
+  - rewrite Hsh', E1, F1. lia.
+  - rewrite Hsh', E1, F1. lia.
+  - eapply rf_dinv; exact Hrf.
 Qed.
 
 (* ---- symbolic validation of freshly built blocks ---- *)
@@ -380,7 +405,7 @@ Lemma live_intro s b :
 Proof.
   intros A B C D E F G. unfold live. apply validate_intro; cbn [final_block b_sh b_data sh_hdr]; try assumption.
   - unfold validate_basic. cbn [sh_hdr sh_sig sh_signer]. rewrite A. cbn [mk_signer sg_addr sg_pub].
-    fold (hdr_of b). rewrite B, wf_gaddr. cbn [addr_eqb negb andb verify_header].
+    fold (hdr_of b). rewrite B, wf_gaddr. cbn [addr_eqb negb andb verify_header key_address].
     rewrite !N.eqb_refl, header_eqb_refl. reflexivity.
   - unfold validate_pair. cbn [d_meta d_txs sh_hdr m_chain m_height m_time]. fold (hdr_of b).
     rewrite !N.eqb_refl, Z.eqb_refl, C, commitment_eqb_refl. reflexivity.
@@ -399,7 +424,7 @@ Proof.
   - unfold link. rewrite N.leb_refl. reflexivity.
   - reflexivity.
   - exact Hi.
-  - intros _. apply live_genesis.
+  - apply live_genesis.
 Qed.
 
 
@@ -415,7 +440,7 @@ Definition step_post (m : img) built execs (v : vol) (a : act) (r : ares) : Prop
   Forall (safe m built' (v_state v)) (a_pre r) /\
   ((a_commit r = [] /\ exists v', a_vol r = Some v' /\ v_state v' = v_state v) \/
    (exists b ret pre0,
-      a_commit r = [w_height (H + 1); w_state (next_state (v_state v) (hdr_of b) ret)] /\
+      a_commit r = [w_state (next_state (v_state v) (hdr_of b) ret); w_height (H + 1)] /\
       a_pre r = pre0 ++ [w_block (H + 1) b] /\
       block_valid c (g_block m) built' execs' (v_state v) b ret /\
       (exists v', a_vol r = Some v' /\ v_state v' = next_state (v_state v) (hdr_of b) ret) /\
@@ -471,10 +496,9 @@ Qed.
 
 Lemma step_spec m inits built execs v sq e :
   RF m inits built execs (v_state v) ->
-  (lv = true -> early_empty_step c m sq = false) ->
   step_post m built execs v (AStep sq e) (step c m v sq e).
 Proof.
-  intros Hrf Hee.
+  intros Hrf.
   pose proof (rf_height _ _ _ _ _ Hrf) as (Hsh & Hge).
   destruct (last_info_rf _ _ _ _ _ Hrf) as (lsig & ltime & Hli & Hlt).
   destruct Hrf as (Hch & Hp & Ha & Hs).
@@ -490,8 +514,11 @@ Proof.
     + apply Hquiet; [reflexivity|constructor].
     + assert (Hcur : Forall (safe m built (v_state v)) [w_cursor cur]).
       { constructor; [left; eexists; reflexivity|constructor]. }
-      match goal with |- context [if ?t then _ else _] => destruct t eqn:Htc end.
-      { apply Hquiet; [reflexivity|exact Hcur]. }
+      cbv zeta.
+      destruct (match ltime with Some lt => (ts <? lt)%Z | None => false end) eqn:Hbf.
+      { (* older than the last block: refused (non-empty) or skipped (empty), nothing saved *)
+        destruct txs as [|t0 txs']; cbn [andb]; apply Hquiet; try reflexivity; exact Hcur. }
+      rewrite andb_false_r.
       destruct (negb (addr_eqb (c_gaddr c) (Addr (c_key c)))) eqn:Hadr.
       { apply Hquiet; [reflexivity|exact Hcur]. }
       (* the early block *)
@@ -500,14 +527,12 @@ Proof.
       assert (Hpe : pend_ok m (log_opt built (Some (g_height m + 1, txs, ts))) (v_state v) (g_height m + 1) eb).
       { splits; try reflexivity.
         - left; reflexivity.
-        - intros Hlv. apply live_intro; try reflexivity.
+        - apply live_intro; try reflexivity.
           + cbn. lia.
           + intros _. cbn [eb early_block hdr_of b_sh sh_hdr h_time].
             destruct Hs as [[_ Hle]|(_ & HH & b0 & Hb0)].
             2:{ replace (c_initial c) with (g_height m + 1) in Hb0 by (pose proof wf_initial; lia). congruence. }
-            destruct Hlt as [[Hle' _]|[_ ->]]; [lia|].
-            specialize (Hee Hlv). unfold early_empty_step in Hee. rewrite Hpb, Hli in Hee.
-            destruct txs as [|t0 txs']; [lia|]. cbn [andb] in Htc. lia. }
+            destruct Hlt as [[Hle' _]|[_ ->]]; [lia|]. lia. }
       pose proof (finish_spec m built execs v' eb ([w_cursor cur] ++ [w_block (g_height m + 1) eb]) (Some (v_cursor v))
                     (Some (g_height m + 1, txs, ts)) (SBatch txs ts cur) e Hsh Hpe) as HF.
       apply HF.
@@ -523,6 +548,16 @@ Lemma dinv_none_intro m inits built execs :
   DInv m inits built execs.
 Proof. intros A B C. unfold DInv. rewrite A. split; assumption. Qed.
 
+(* once the store height has caught up with the recorded state, a process can run on the image *)
+Lemma dinv_rf m inits built execs s :
+  DInv m inits built execs -> g_state m = Some s -> g_height m = s_height s -> RF m inits built execs s.
+Proof.
+  unfold DInv. intros HD Hs Hh. rewrite Hs in HD. rewrite <- Hh in HD.
+  destruct HD as (Hch & Hle & _ & _ & Hp & Ha). unfold RF. splits; try assumption. left. split; assumption.
+Qed.
+
+Definition synced (m : img) : Prop := forall s, g_state m = Some s -> g_height m = s_height s.
+
 Lemma boot_spec m inits built execs fok ic :
   DInv m inits built execs ->
   let r := boot c m fok ic in
@@ -531,26 +566,36 @@ Lemma boot_spec m inits built execs fok ic :
   a_commit r = [] /\
   (forall k, let m' := apply_writes m (firstn k (a_pre r)) in
        DInv m' inits' built' execs /\ g_height m <= g_height m' /\ (forall j, j <= g_height m -> g_block m' j = g_block m j)) /\
-  (forall v, a_vol r = Some v -> RF (apply_writes m (a_pre r)) inits' built' execs (v_state v)).
+  (forall v, a_vol r = Some v -> RF (apply_writes m (a_pre r)) inits' built' execs (v_state v)) /\
+  synced (apply_writes m (a_pre r)).
 Proof.
-  intros HD. pose proof wf_initial as Hi. unfold boot. unfold DInv in HD.
+  intros HD. pose proof wf_initial as Hi. unfold boot. pose proof HD as HD0. unfold DInv in HD.
   destruct (g_state m) as [s|] eqn:Hst.
-  - (* a state is stored *)
-    destruct HD as ((r0 & Hr & Hc) & Hle & Hp & Ha).
-    pose proof (chain_height _ _ _ _ _ _ _ Hc) as (Hsh & _).
+  - (* a state is stored: the store height is raised to its height if it lags behind *)
+    destruct HD as ((r0 & Hr & Hc) & Hle & Hb1 & Hb2 & Hp & Ha).
     destruct (N.ltb_spec (s_height s) (c_initial c)) as [Hlt|_]; [lia|].
-    assert (Hset : set_height m (s_height s) = []).
-    { unfold set_height. rewrite Hsh, N.leb_refl. reflexivity. }
-    rewrite Hset.
-    assert (HD' : DInv m inits built execs).
-    { unfold DInv. rewrite Hst. splits; try assumption. exists r0; split; assumption. }
-    destruct fok; cbn [a_pre a_commit a_vol a_init a_built fail_res log_opt].
-    + split; [reflexivity|]. split.
-      * intros k. rewrite firstn_nil, apply_writes_nil. split; [exact HD'|]. split; [lia|reflexivity].
-      * intros v Hv. inversion Hv; subst v. cbn [v_state]. rewrite apply_writes_nil.
-        unfold RF. splits; try assumption; [exists r0; split; assumption|left; split; assumption].
-    + split; [reflexivity|]. split.
-      * intros k. rewrite firstn_nil, apply_writes_nil. split; [exact HD'|]. split; [lia|reflexivity].
+    unfold set_height. destruct (N.leb_spec (s_height s) (g_height m)) as [Hge|Hlt2].
+    + assert (HH : g_height m = s_height s) by lia.
+      assert (Hrf : RF m inits built execs s) by (apply dinv_rf; assumption).
+      destruct fok; cbn [a_pre a_commit a_vol a_init a_built fail_res log_opt];
+        (split; [reflexivity|]); (split; [intros k; rewrite firstn_nil, apply_writes_nil; split; [exact HD0|split; [lia|reflexivity]]|]);
+        rewrite apply_writes_nil; (split; [|intros s0 Hs0; congruence]).
+      * intros v Hv. inversion Hv; subst v. exact Hrf.
+      * intros v Hv. discriminate Hv.
+    + destruct (aw_height m (s_height s)) as (C1 & C2 & _ & C4).
+      assert (HD1 : DInv (apply_write m (w_height (s_height s))) inits built execs).
+      { apply (dinv_transport m _ inits built execs s Hst); [congruence|exact C4|lia|lia|exact HD0]. }
+      assert (Hrf : RF (apply_write m (w_height (s_height s))) inits built execs s).
+      { apply dinv_rf; [exact HD1|congruence|exact C1]. }
+      assert (Hpre : forall k, let m' := apply_writes m (firstn k [w_height (s_height s)]) in
+                 DInv m' inits built execs /\ g_height m <= g_height m' /\ (forall j, j <= g_height m -> g_block m' j = g_block m j)).
+      { intros [|k]; cbn [firstn].
+        - rewrite apply_writes_nil. split; [exact HD0|split; [lia|reflexivity]].
+        - rewrite firstn_nil, apply_writes_cons, apply_writes_nil. split; [exact HD1|]. split; [lia|intros j _; apply C4]. }
+      destruct fok; cbn [a_pre a_commit a_vol a_init a_built fail_res log_opt];
+        (split; [reflexivity|]); (split; [exact Hpre|]);
+        rewrite apply_writes_cons, apply_writes_nil; (split; [|intros s0 Hs0; congruence]).
+      * intros v Hv. inversion Hv; subst v. exact Hrf.
       * intros v Hv. discriminate Hv.
   - (* no state: genesis *)
     destruct HD as (Hle & Ha).
@@ -558,7 +603,7 @@ Proof.
     2:{ cbn [a_pre a_commit a_vol a_init a_built fail_res log_opt]. split; [reflexivity|]. split.
         - intros k. rewrite firstn_nil, apply_writes_nil. split; [|split; [lia|reflexivity]].
           apply dinv_none_intro; assumption.
-        - intros v Hv; discriminate Hv. }
+        - split; [intros v Hv; discriminate Hv|]. rewrite apply_writes_nil. intros s0 Hs0. congruence. }
     set (gb := genesis_block c r0).
     destruct (aw_block m (c_initial c) gb) as (B1 & B2 & _ & B4).
     destruct (aw_height (apply_write m (w_block (c_initial c) gb)) (c_initial c - 1)) as (C1 & C2 & _ & C4).
@@ -599,7 +644,8 @@ Proof.
       * intros [|k]; cbn [firstn].
         { rewrite apply_writes_nil. split; [|split; [lia|reflexivity]]. apply dinv_none_intro; assumption. }
         { rewrite firstn_nil, apply_writes_cons, apply_writes_nil. split; [exact D1|]. split; [lia|exact F1]. }
-      * intros v Hv. rewrite apply_writes_cons, apply_writes_nil.
+      * split; [|intros s0 Hs0; rewrite apply_writes_cons, apply_writes_nil in Hs0; congruence].
+        intros v Hv. rewrite apply_writes_cons, apply_writes_nil.
         assert (v_state v = genesis_state c r0) as -> by (destruct fok; inversion Hv; reflexivity).
         unfold RF. rewrite B1, B2, HH. replace (c_initial c - 1 + 1) with (c_initial c) by lia.
         splits.
@@ -616,7 +662,8 @@ Proof.
           split; [|split; [lia|intros j Hj; rewrite C4; apply F1, Hj]].
           apply dinv_none_intro; [congruence|lia|]. intros k' Hk'. rewrite C4, B4.
           destruct (N.eqb_spec k' (c_initial c)); [lia|]. apply Ha, Hk'. }
-      * intros v Hv. rewrite apply_writes_cons, apply_writes_cons, apply_writes_nil.
+      * split; [|intros s0 Hs0; rewrite apply_writes_cons, apply_writes_cons, apply_writes_nil in Hs0; congruence].
+        intros v Hv. rewrite apply_writes_cons, apply_writes_cons, apply_writes_nil.
         assert (v_state v = genesis_state c r0) as -> by (destruct fok; inversion Hv; reflexivity).
         unfold RF. rewrite C1, C2, B2. replace (c_initial c - 1 + 1) with (c_initial c) by lia.
         splits.
